@@ -431,8 +431,14 @@ def run_shard(shard, tier, seed):
                                        "type:" + payload["var"]["type"]])
         ctx.judge(payload, vio)
 
-    runner.drive(ctx, case_for(shard["type"]), case, shard["n"], seed)
+    with runner.Reach(ctx, ["models.py"]):
+        runner.drive(ctx, case_for(shard["type"]), case, shard["n"], seed)
     return ctx.to_dict()
+
+
+def finalize(results, tier, seed, coverage):
+    runner.merge_reach(results, coverage)
+    return []
 
 
 def replay(payload):
